@@ -17,7 +17,7 @@ import (
 func TestMain(m *testing.M) { vt.Main(m, "C15") }
 
 // statement kinds
-var kinds = []string{"mark", "defer", "deferIfT", "deferIfF", "deferRaise", "ret", "retIfT", "retIfF", "raise", "fail", "assignDefer"}
+var kinds = []string{"mark", "defer", "deferIfT", "deferIfF", "deferRaise", "ret", "retIfT", "retIfF", "raise", "fail", "assignDefer", "deferCall", "deferErrVal"}
 
 var truthyGuards = []string{"1", "true", `"x"`, "[0]", "'s", "2.5", "{a: 1}"}
 var falsyGuards = []string{"0", "false", `""`, "[]", "nil", "0.0", "{}"}
@@ -48,6 +48,10 @@ func (f *fn) src() string {
 			parts = append(parts, fmt.Sprintf(`defer {|| "d%d".p; raise TypeErr.new("dr%d")}()`, s.ID, s.ID))
 		case "assignDefer": // the deferred expression reads a variable assigned later: it must see the final value
 			parts = append(parts, fmt.Sprintf(`v%d := 1; defer "d%d-#{v%d}".p; v%d := 2`, s.ID, s.ID, s.ID, s.ID))
+		case "deferCall": // the deferred expression is a call of a function that has defers (and calls) of its own
+			parts = append(parts, fmt.Sprintf(`defer %s()`, s.Sub.Name))
+		case "deferErrVal": // the deferred expression does not raise: its value is an error captured by try (or any other value)
+			parts = append(parts, fmt.Sprintf(`defer {|| "d%d".p; %s}()`, s.ID, []string{"1.try.{|x| x/0}.err", "nil.try.{|x| raise ValueErr.new(\"held\")}.err", "1.try.{|x| x/0}", "[1.try.{|x| x/0}.err]", "99"}[s.ID%5]))
 		case "ret":
 			parts = append(parts, fmt.Sprintf(`return %d`, s.ID))
 		case "retIfT", "retIfF":
@@ -82,7 +86,7 @@ loop:
 		case "mark":
 			*out = append(*out, fmt.Sprintf("m%d", s.ID))
 			val = "nil"
-		case "defer", "deferIfT", "deferRaise", "assignDefer":
+		case "defer", "deferIfT", "deferRaise", "assignDefer", "deferCall", "deferErrVal":
 			defers = append(defers, s)
 			val = "nil" // a defer statement has no value of its own
 			if s.Kind == "assignDefer" {
@@ -113,6 +117,12 @@ loop:
 	// every reached defer exactly once, after the body, in the order reached
 	for _, d := range defers {
 		switch d.Kind {
+		case "deferCall":
+			// the callee runs (with its own defers) now; its value is dropped, its error replaces the outcome
+			if _, e := model(d.Sub, out); e != "" {
+				return "", e
+			}
+			continue
 		case "assignDefer":
 			*out = append(*out, fmt.Sprintf("d%d-2", d.ID))
 		default:
@@ -208,7 +218,10 @@ func nontrivial(top *fn) bool {
 		seenDefer, seenExit := false, false
 		for _, s := range f.Stmts {
 			switch s.Kind {
-			case "defer", "deferIfT", "deferRaise", "deferIfF", "assignDefer":
+			case "defer", "deferIfT", "deferRaise", "deferIfF", "assignDefer", "deferCall", "deferErrVal":
+				if s.Kind == "deferCall" && seenDefer {
+					return true // a deferred call beside other defers
+				}
 				if seenDefer && seenExit {
 					return true
 				}
@@ -262,6 +275,10 @@ func mkStmt(kind string, id int) stmt {
 		s.Guard = truthyGuards[id%len(truthyGuards)]
 	case "deferIfF", "retIfF":
 		s.Guard = falsyGuards[id%len(falsyGuards)]
+	case "deferCall":
+		// a callee that reaches two defers, one of them a call of a function with one more
+		inner := &fn{Name: fmt.Sprintf("g%d", id), Stmts: []stmt{{Kind: "defer", ID: id*100 + 3}, {Kind: "mark", ID: id*100 + 4}}}
+		s.Sub = &fn{Name: fmt.Sprintf("h%d", id), Stmts: []stmt{{Kind: "defer", ID: id*100 + 1}, {Kind: "call", ID: id*100 + 5, Sub: inner}, {Kind: "defer", ID: id*100 + 2}}}
 	}
 	return s
 }
@@ -318,16 +335,19 @@ func genFn(t *rapid.T, depth int, counter *int, names *int) *fn {
 		*counter++
 		ks := append([]string{"mark", "defer", "defer"}, kinds...)
 		if depth > 0 {
-			ks = append(ks, "call", "call", "call")
+			ks = append(ks, "call", "call", "call", "deferCall")
 		}
 		k := rapid.SampledFrom(ks).Draw(t, "kind")
+		if k == "deferCall" && depth <= 0 {
+			k = "defer"
+		}
 		s := stmt{Kind: k, ID: *counter}
 		switch k {
 		case "deferIfT", "retIfT":
 			s.Guard = rapid.SampledFrom(truthyGuards).Draw(t, "guard")
 		case "deferIfF", "retIfF":
 			s.Guard = rapid.SampledFrom(falsyGuards).Draw(t, "guard")
-		case "call":
+		case "call", "deferCall":
 			s.Sub = genFn(t, depth-1, counter, names)
 		}
 		f.Stmts = append(f.Stmts, s)
